@@ -211,6 +211,15 @@ func childSessionStress(a []string) string {
 				var proxy bus.Proxy
 				var err error
 				if name == "?unknown" {
+					if g%3 == 2 {
+						// a registered service, an object it does not have: refused by the service itself, over a
+						// connection that is fine and stays the one connection to that endpoint
+						_, err = sess.Proxy(names[1+g%(len(names)-1)], 4242+uint32(g))
+						if err == nil {
+							errs <- "unknown-object: request accepted"
+						}
+						return
+					}
 					if g%2 == 1 {
 						ref := refs[names[1]]
 						ref.ServiceID = 4000 + uint32(g)
